@@ -335,7 +335,7 @@ class LimitsDriver(ClientDriver):
                     # one history request - a cache miss - sent a moment after this point was reached: if the thread
                     # is parked here it arrives between the two commits
                     drv.flush_probe_armed -= 1
-                    sim.at(0.05, lambda: drv.op_heavy_storm(dict(op='heavy_storm', c=1, rep=1, at=0.0)))
+                    sim.at(0.05, lambda: drv.op_heavy_storm(dict(op='heavy_storm', c=3, rep=1, at=0.0)))
                 sim.seam('flush.between_commits')
                 return orig(db, flush_data)
             dbmod.DB.flush_utxo_db = flush_utxo_db
@@ -395,9 +395,11 @@ class LimitsFamily(SubsFamily):
             # (the subscriber leaves: a notification round computes the status of every subscribed script and so
             # fills the history cache again at once)
             plan.append(dict(op='c_disconnect', c=0))
+            plan.append(dict(op='c_disconnect', c=1))       # (heavy_check subscribed it)
+            plan.append(dict(op='wait', dt=1.0))
             plan.append(dict(op='heavy_grow', to=limit - 2))
             plan.append(dict(op='settle'))          # notified: the cached history is gone, and nobody asks
-            plan.append(dict(op='c_connect', c=1))
+            plan.append(dict(op='c_connect', c=3))
             plan.append(dict(op='heavy_grow', to=limit + rng.choice([0, 1, 30]), arm=1))
             plan.append(dict(op='wait', dt=25.0))
             plan.append(dict(op='settle'))
